@@ -377,7 +377,7 @@ def rule_shared_state(ctx, cfg='prod-all', scope_prefixes=('',)):
 PASS_THROUGH_ROLES = ('pk', 'sk', 'header', 'ph', 'api_id', 'key_info', 'key_dst', 'key_material', 'signer_pk', 'commitment_pk', 'a_bases')
 
 
-def rule_argument_roles(ctx, cfg='prod-all', scope=('bbsplus::', 'utils::util::bbsplus_utils', 'utils::message::bbsplus_message'), roles=PASS_THROUGH_ROLES, min_sites=40):
+def rule_argument_roles(ctx, cfg='prod-all', scope=('bbsplus::', 'utils::util::bbsplus_utils', 'utils::message::bbsplus_message'), roles=PASS_THROUGH_ROLES, min_sites=40, callee_scope=None, tag=''):
     """context data is handed down unchanged: when a function passes an argument for a callee parameter named pk / sk / header / ph /
     api_id (...), that argument is computed from the caller's parameter of the same name and from no other parameter (or from constants
     only when the caller has no such parameter).  A header passed where the presentation header belongs, or a key of the wrong party,
@@ -391,6 +391,8 @@ def rule_argument_roles(ctx, cfg='prod-all', scope=('bbsplus::', 'utils::util::b
         for bi, t in b.calls():
             tgt = local_target(eng, t)
             if tgt is None or tgt not in prog.bodies:
+                continue
+            if callee_scope is not None and not tgt.startswith(callee_scope):
                 continue
             cb = prog.bodies[tgt]
             for k, a in enumerate(t['args']):
@@ -411,7 +413,7 @@ def rule_argument_roles(ctx, cfg='prod-all', scope=('bbsplus::', 'utils::util::b
                 yield Ob('RF-B', '%s#arg:%s(%s)@%d' % (p, tgt.split('::')[-1], role, sum(1 for bj, tj in b.calls() if bj < bi and local_target(eng, tj) == tgt)), ok,
                          'argument for `%s` of %s comes from the caller\'s own `%s`' % (role, tgt.split('::')[-1], role), '%s L%s' % (b.file(), t['line']),
                          fact={'sources': srcs}, expected=exp)
-    yield Ob('RF-B', 'crate#argument-role-census', n >= min_sites, 'pass-through arguments checked', '', fact=n, expected='>= %d' % min_sites, nontrivial=False)
+    yield Ob('RF-B', 'crate#argument-role-census%s' % tag, n >= min_sites, 'pass-through arguments checked', '', fact=n, expected='>= %d' % min_sites, nontrivial=False)
 
 
 # ------------------------------------------------------------------ message lists handed down whole
